@@ -362,14 +362,14 @@ class _FuncWalker:
             s0 = self._snap()
             for nm in _isinstance_names(st.test):
                 if self.env.get(nm) in (HOSTILE, EVENT):
-                    self.env[nm] = TYPED
+                    self.env[nm] = _narrow_kind(st.test, nm)
             self.block(st.body)
             s1 = self._snap()
             self._restore(s0)
             neg = _isinstance_names(st.test.operand) if isinstance(st.test, ast.UnaryOp) and isinstance(st.test.op, ast.Not) else []
             for nm in neg:
                 if self.env.get(nm) in (HOSTILE, EVENT):
-                    self.env[nm] = TYPED   # the else branch runs when the isinstance test held
+                    self.env[nm] = _narrow_kind(st.test, nm)   # the else branch runs when the isinstance test held
             self.block(st.orelse)
             exits = bool(st.body) and isinstance(st.body[-1], (ast.Return, ast.Raise, ast.Continue, ast.Break))
             if exits and neg:
@@ -682,6 +682,15 @@ class _FuncWalker:
         self.an.callers.setdefault((rel, fn.name), set()).add((self.rel, self.func.name))
         lvl = self.level(e)
         return self.an.analyse(rel, fn, kinds, lvl, origins)
+
+
+def _narrow_kind(test, name) -> str:
+    """TEXT when the established type is exactly str, else TYPED."""
+    for c in ast.walk(test):
+        if isinstance(c, ast.Call) and isinstance(c.func, ast.Name) and c.func.id == "isinstance" and len(c.args) == 2 \
+                and isinstance(c.args[0], ast.Name) and c.args[0].id == name:
+            return TEXT if isinstance(c.args[1], ast.Name) and c.args[1].id == "str" else TYPED
+    return TYPED
 
 
 def _isinstance_names(test) -> List[str]:
